@@ -201,6 +201,13 @@ private:
         // do nothing
       } else {
         // cst is a disequation
+        if (res.is_top() ||
+            !((rhs * interval_traits::mk_interval<Interval>(
+                         c, get_bitwidth(pivot))) == res)) {
+          // The division res/c is not exact (e.g., 2*x != 1 over the
+          // integers) so no value of pivot can be excluded.
+          continue;
+        }
         Interval old_i = env.at(pivot);
         Interval new_i = interval_traits::trim_interval(old_i, rhs);
         if (new_i.is_bottom()) {
